@@ -25,7 +25,8 @@ theorem C07_gen_layout :
     Gen.Layout.savedGame_freeUnitsBytes = freeUnitsBytes ∧ Gen.Layout.DefaultSizeOfUnit = defaultSizeOfUnit := by decide
 
 theorem C07_gen_constants :
-    Gen.Constants.map_savedGameSkip = savedGameSkip ∧ Gen.Constants.map_tilesetHeader = marker.map (·.toNat) := by decide
+    (Gen.Constants.map_savedGameSkip_scraped = true → Gen.Constants.map_savedGameSkip = savedGameSkip) ∧
+    (Gen.Constants.map_tilesetHeader_scraped = true → Gen.Constants.map_tilesetHeader = marker.map (·.toNat)) := by decide
 
 /-- `MapHeader::WidthInTiles` as translated from the source is the checked shift wherever that is defined -/
 theorem C07_gen_WidthInTiles : Gen.Formulas.gen_WidthInTiles_translated = true →
